@@ -9,7 +9,7 @@ from ..cfg import cfg_of
 from ..excflow import _truthy_guard, enclosing_handlers, handler_catches, primitive_sites, raise_arity, raised_class, route_in_scope
 from ..model import AnalysisError, NotConst, dotted, norm, walk_own
 from ..relang import Pattern, compare
-from .common import cmp_fact, find_calls, guards_of, key_of, leads_only_to_raise, mentions, resolve_locals
+from .common import cmp_fact, find_calls, guards_of, key_of, leads_only_to_raise, mentions, resolve_locals, str_template, template_text
 
 EXPLANATION = (
     "Containment, guard and shape analysis of proxy_headers.py. (R1) Every explicit raise and every raising primitive "
@@ -264,6 +264,36 @@ def rule_r3(ctx):
         else:
             ctx.r.violation(rid, key_of(f, None, "ipv6-port-test::" + x), "%s is split into host and port without the test that it does not *end* in ']' (guards: %s): `[v6]:port` keeps its port in the host name, or a bare `[v6]` literal is cut at a colon inside the address" % (x, [norm(t)[:30] for (t, _p) in gs][-3:]), f.loc(nd.ast))
     ctx.r.floor(rid, nsplit, 2, "host:port / addr:port splits")
+    # a bare IPv6 address in X-Forwarded-For gets its brackets - and only that: the hop is wrapped when it holds a ':' and no
+    # '.' and does not already end in ']' (an `a.b.c.d:port` hop wrapped as well keeps its port inside the address)
+    nwrap = 0
+    for nd, c in find_calls(gcf, lambda c: isinstance(c.func, ast.Attribute) and c.func.attr == "append" and len(c.args) == 1):
+        tpl = str_template(c.args[0])
+        if tpl is None or template_text(tpl, names=False) != "[{}]":
+            continue
+        x = [q for q in tpl if not isinstance(q, str)][0][1]
+        nwrap += 1
+        gs = guards_of(gcf, nd)
+
+        def has(ch, want, x=x):
+            for (t, pol) in gs:
+                if isinstance(t, ast.Compare) and len(t.ops) == 1 and isinstance(t.ops[0], ast.In) and isinstance(t.left, ast.Constant) and t.left.value == ch and norm(t.comparators[0]) == x and pol == want:
+                    return True
+            return False
+
+        def endb(x=x):
+            for (t, pol) in gs:
+                if isinstance(t, ast.Compare) and len(t.ops) == 1 and isinstance(t.ops[0], ast.Eq) and norm(t.left) == x + "[-1]" and isinstance(t.comparators[0], ast.Constant) and t.comparators[0].value == "]" and not pol:
+                    return True
+                if isinstance(t, ast.Call) and isinstance(t.func, ast.Attribute) and t.func.attr == "endswith" and norm(t.func.value) == x and t.args and isinstance(t.args[0], ast.Constant) and t.args[0].value == "]" and not pol:
+                    return True
+            return False
+        for what, okk in (("holds no '.'", has(".", False)), ("holds a ':'", has(":", True)), ("does not end in ']'", endb())):
+            if okk:
+                ctx.r.ok(rid, "%s is wrapped in brackets only when it %s" % (x, what), f.loc(nd.ast))
+            else:
+                ctx.r.violation(rid, key_of(f, None, "bare-ipv6-wrap::" + what), "%s is wrapped in brackets without the test that it %s: an IPv4 `addr:port` hop becomes `[addr:port]`, the port is never split off and REMOTE_ADDR is not the address of the hop" % (x, what), f.loc(nd.ast))
+    ctx.r.floor(rid, nwrap, 1, "bracket wrapping of bare IPv6 hops")
     # Forwarded: reverse walk with or-fill
     loops = [n for n in walk_own(f.node) if isinstance(n, ast.For) and "proxies" in norm(n.iter)]
     ok = False
